@@ -705,6 +705,17 @@ class Gen:
             have = len(node.reps('fld', i)) if node is not None else 0
             if self.strict and c[2][1] != -1 and have >= c[2][1]:
                 return None
+            comps_ = _usable_comps(self.version, c[1])
+            if comps_ and rng.random() < 0.4:
+                # ... or component.datatype = <complex datatype> on a freshly added, empty, named component:
+                # this element changes, the library's description of every other CX_1 does not
+                ci, ce = rng.choice(comps_)
+                ndt = rng.choice([d for d in ('CWE', 'CX', 'HD', 'CE', 'XPN', 'EI') if d != ce[1][2] and T.datatype_struct(self.version, d)] or ['HD'])
+                self.pending.append({'k': 'add', 'p': path + [['fld', i, have, 0]], 'c': ['cmp', ci, 0, 0], 'via': 'factory'})
+                self.pending.append({'k': 'datatype', 'p': path + [['fld', i, have, 0], ['cmp', ci, 0, 0]], 'dt': ndt, 'bad': 'datatype_override'})
+                if self.mixname == 'c04':
+                    self.pending.append({'k': 'validate', 'variant': 'errors', 'p': []})
+                return {'k': 'add', 'p': path, 'c': ['fld', i, 0, 0], 'via': 'factory'}
             ndt = rng.choice([d for d in ('NM', 'ST', 'DT', 'ID', 'SI') if d != cur and T.is_base(self.version, d)] or ['ST'])
             v, ok = gen.leaf(ndt, self.tok, rng, 0.0)
             self.pending.append({'k': 'datatype', 'p': path + [['fld', i, have, 0]], 'dt': ndt, 'bad': 'datatype_override'})
@@ -722,8 +733,10 @@ class Gen:
             src = rng.choice(node.kids)
             src_i = [id(k) for k in node.reps('fld', src.key)].index(id(src))
             reps_same = node.reps('fld', src.key)
-            if len(reps_same) > 1 and rng.random() < 0.7:
-                dst_i = rng.choice([i for i in range(len(reps_same)) if i != src_i])
+            if rng.random() < (0.7 if len(reps_same) > 1 else 0.35):
+                # over another repetition, or into the slot just past the last one (s.pid_3[1] = s.pid_3[0]
+                # with one repetition: the element is a child already, nothing may change)
+                dst_i = rng.choice([i for i in range(len(reps_same) + 1) if i != src_i])
                 return {'k': 'set', 'p': path, 'c': ['fld', src.key, dst_i, 0], 'via': 'item', 'bad': 'elem_assign',
                         'v': {'elem': [0, path + [['fld', src.key, src_i, 0]]]}}
             ri, mk = self.ensure_side(world, 'seg', seg_name)
@@ -780,6 +793,23 @@ class Gen:
             text = self.field_value(fref)
         reg = rng.randrange(100)
         follow = []
+        if len(comps) > 1 and reps <= 1 and node is not None and node.key != 'MSH' and rng.random() < 0.3:
+            # the element had a child of that name and lost it; two handles to two components of the (absent)
+            # child are read, then written through one after the other: one child with both components
+            fpath = path + [['fld', idx, 0, 0]]
+            (c1, e1), (c2, e2) = rng.sample(comps, 2)
+            seq = []
+            if reps == 0:
+                seq.append({'k': 'set', 'p': path, 'c': ['fld', idx, 0, self.sp()], 'v': {'text': self.field_value(fref)}, 'via': 'attr'})
+            seq.append({'k': 'del', 'p': path, 'c': ['fld', idx, 0, self.sp()], 'via': rng.choice(['attr', 'item'])})
+            r1, r2 = 60 + rng.randrange(20), 80 + rng.randrange(20)
+            seq.append({'k': 'hold', 'p': fpath + [['cmp', c1, 0, 0]], 'reg': r1})
+            seq.append({'k': 'hold', 'p': fpath + [['cmp', c2, 0, 0]], 'reg': r2})
+            for r_, c_, e_ in ((r1, c1, e1), (r2, c2, e2)):
+                seq.append({'k': 'held_value', 'reg': r_, 'hp': fpath + [['cmp', c_, 0, 0]],
+                            'text': gen.component_text(rng, self.version, e_[1], self.ec, self.tok, 0.4, 0.0)})
+            self.pending.extend(seq[1:])
+            return seq[0]
         if comps and rng.random() < 0.5 and not (self.strict and reps):
             # read a handle, write a *sibling* field through the same (maybe missing) segment, then write
             # through the handle: everything must land in the one segment
@@ -946,7 +976,7 @@ class Gen:
             causes += ['msg_other_text', 'seg_cardinality', 'seg_level_mismatch', 'seg_wrong_name']
         if self.twin:     # each twin has its own level: a level mismatch means nothing in lock-step
             causes = [c for c in causes if 'level' not in c]
-        causes += ['unknown_varies', 'base_overflow']
+        causes += ['unknown_varies', 'base_overflow', 'foreign_component']
         cause = rng.choice(causes)
         if cause == 'unknown_varies':
             # the one nameless field STRICT lets be constructed (datatype 'varies'): no segment may take it
@@ -955,6 +985,31 @@ class Gen:
             path, seg_name, node = rng.choice(targets)
             return {'k': 'add_unknown', 'p': path, 'text': gen.valid_literal('ST', self.tok, rng), 'datatype': 'varies',
                     'bad': 'unknown_element'}
+        if cause == 'foreign_component':
+            # a named component of another datatype's structure (CX_1 is an ST) offered to an empty field
+            # of that base datatype (PID_19, an ST): a foreign child, whatever its datatype
+            if not targets:
+                return None
+            path, seg_name, node = rng.choice(targets)
+            if node is None or node.key == 'MSH':
+                return None
+            fl = [(i, c) for i, c in _usable_fields(self.version, seg_name) if T.is_base(self.version, c[1][2])]
+            have = {f.key for f in node.kids}
+            fl = [(i, c) for i, c in fl if i not in have]
+            if not fl:
+                return None
+            i, c = rng.choice(fl)
+            dt = c[1][2]
+            names = []
+            for sname, st in sorted(T.lib(self.version).DATATYPES_STRUCTS.items()):
+                for ent in st:
+                    if ent[1] is not None and ent[1][2] == dt:
+                        names.append(ent[0])
+            if not names:
+                return None
+            self.pending.append({'k': 'add', 'p': path + [['fld', i, 0, 0]], 'c': ['cmp', 1, 0, 0], 'via': 'inst', 'cls': 'cmp',
+                                 'name': rng.choice(names), 'text': gen.valid_literal(dt, self.tok, rng), 'bad': 'foreign_name'})
+            return {'k': 'add', 'p': path, 'c': ['fld', i, 0, 0], 'via': 'factory'}
         if cause == 'base_overflow':
             # a second component / subcomponent for an element of a base datatype (preferably one that is a
             # base datatype in some versions only: TN, CM, SNM): refused under both levels
@@ -1162,7 +1217,7 @@ def gen_init(rng, mix, tok):
     if kind == 'msg' and mix in ('c04', 'c05') and rng.random() < 0.15:
         from worlds import valorder_world as VO
         item = VO.make_item(rng, rng.randrange(1000))
-        while item.get('kind') == 'zfield':
+        while item.get('kind') in ('zfield', 'zmulti'):
             item = VO.make_item(rng, rng.randrange(1000))
         return {'kind': 'msg', 'name': 'RSP_K21', 'version': '2.5', 'level': level if mix == 'c05' else 2, 'ec': 0,
                 'text': item['text'], 'profile': True}
